@@ -5,12 +5,16 @@ import vlib, flow, gen_trans
 import pt_common as pc
 
 gen_trans.register('mm_vmm.json')   # Go -> Gallina translation of the pageTableEntry / Frame / Page helpers (Gen/Trans_mm_vmm.v, used by Vmm/PtTrans.v)
+gen_trans.register('vmm_pdt.json')    # "memory as state" translations used by the fault-handler tie (Vmm/FaultTrans.v needs the oracles of Vmm/PdtTrans.v, Vmm/MapTrans.v)
+gen_trans.register('vmm_map.json')
+gen_trans.register('vmm_fault.json')  # pageFaultHandler with the closure passed to walk, raw-pointer loads/stores and stateful seams (Gen/Trans_vmm_fault.v, Vmm/FaultTrans.v)
 from pt_common import LO, P, RW, US, HUGE, COW, NX, M64, M36
 
 
 class C06(flow.Spec):
     prop = 'C06'
-    props_files = ['theories/Props/C06.v', 'theories/Props/C06_examples.v', 'theories/Props/C06_mem.v', 'theories/Props/C06_mem_examples.v']
+    props_files = ['theories/Props/C06.v', 'theories/Props/C06_examples.v', 'theories/Props/C06_mem.v', 'theories/Props/C06_mem_examples.v',
+                   'theories/Props/C06_fault_trans.v', 'theories/Props/C06_fault_trans_examples.v']
     model_targets = ['theories/Vmm/Pt.vo', 'theories/Kernel/MemUtil.vo']
     pkg = 'mm/vmm'
     harness = pc.HARNESS + [os.path.join(pc.H, 'zz_verif_c06_test.go')]
@@ -24,7 +28,8 @@ class C06(flow.Spec):
         "physical memory and the MMU are simulated by the harness (see C04); the faulting page shows the frame its translation names (a shared mapping of the arena page is placed at the fault address), so recoverable faults are generated inside the harness's view window only",
         "theorem domain: fault page outside slot 511 and not the temp-mapping page, the page shows a backed data frame that is neither a page table nor in the allocator's free list; frames handed out for page tables are fresh (C01), the copy frame may be anything (the zero frame is refused by MapTemporary -> panic)",
         'zero_frame_inv: active address space, requests with frames < 2^40 and flags outside bits 12-51 (a frame number >= 2^40 aliases the zero frame past the guard: domain restriction), faults on pages that share the zero frame; a panicking fault ends the history',
-        'that a hardware write fault re-executes correctly after the handler returns is outside the model; kfmt output of the panic path is discarded']
+        'that a hardware write fault re-executes correctly after the handler returns is outside the model; kfmt output of the panic path is discarded',
+        "translation tie of pageFaultHandler (C06_fault_handler_is_translation): gen/gotrans's memory mode (ext_mem.go) + Vmm/PtAccess.v (a raw-pointer dereference = a virtual access resolved by the MMU model at that time) + the oracles of Vmm/PdtTrans.v, MapTrans.v, FaultTrans.v for the seams (kernel.Memcopy of a page = the model's page-copy step; nonRecoverablePageFault never returns: its call ends the run); under fault_stable (the leaf entry is still found at pageEntry after the temporary mapping has come and gone and while it is being rewritten) and 64-bit address / memory words"]
     partial = []
 
     def gen_cases(self, rng, tier):
